@@ -26,6 +26,7 @@ type BigCase struct {
 	Chunk   uint32   `json:"chunk"`
 	Data    []uint32 `json:"data"` // chunk indices that hold (seeded) data in the source; everything else is a hole
 	Need    []uint32 `json:"need"` // chunk indices missing at the receiver
+	Damage  []uint32 `json:"damage"` // chunk indices the sidecar marks complete although their bytes on disk are wrong (torn)
 	Streams int      `json:"streams"`
 }
 
@@ -95,6 +96,13 @@ func runBig(c BigCase) (res Result) {
 			of.WriteAt(content(uint64(d)+11, n), off)
 		}
 	}
+	for _, d := range c.Damage {
+		off, n := chunkSpan(c.Size, c.Chunk, d)
+		if n > 0 {
+			junk := content(uint64(d)+4242, n)
+			of.WriteAt(junk, off)
+		}
+	}
 	of.Close()
 	sc, err := transfer.CreateSidecar(transfer.SidecarPath(out, "", item.ID), item.ID, item.Size, c.Chunk)
 	if err != nil {
@@ -162,6 +170,9 @@ func runBig(c BigCase) (res Result) {
 		if n > 0 {
 			look[n-1] = true
 		}
+	}
+	for _, d := range c.Damage {
+		look[d] = true
 	}
 	// where an offset computed modulo 2^32 would land
 	for _, n := range c.Need {
